@@ -225,6 +225,39 @@ Definition transport_ok (T : list pos) (O : list (pos * nat)) (ps : list spath) 
   | None => false
   end.
 
+
+(* the same transport with the tones selected by index lists (gemini.logical.move_by_shift): only the selected
+   tones are lit; lx / ly are the index lists written in the path *)
+Definition zlist_eqb (a b : list Z) : bool := (length a =? length b) && forallb (fun p => Z.eqb (fst p) (snd p)) (combine a b).
+Fixpoint nodup_nat (l : list nat) : bool :=
+  match l with [] => true | a :: r => negb (existsb (Nat.eqb a) r) && nodup_nat r end.
+Definition in_range (n : nat) (l : list Z) : bool := forallb (fun z => (0 <=? z)%Z && (z <? Z.of_nat n)%Z) l.
+Definition pick_coords (ix : list nat) (cs : list Q) : list Q := map (fun i => nth i cs 0) ix.
+Definition wp_sel_okb (nx ny : nat) (ix iy : list nat) (w : list Q * list Q) : bool :=
+  (length (fst w) =? nx) && (length (snd w) =? ny) && distinct_q (pick_coords ix (fst w)) && distinct_q (pick_coords iy (snd w)).
+Definition sel_sites (ix iy : list nat) (w : list Q * list Q) : list pos :=
+  flat_map (fun x => map (fun y => (x, y)) (pick_coords iy (snd w))) (pick_coords ix (fst w)).
+Definition recognise_transport_sel (ps : list spath)
+  : option (nat * nat * list Z * list Z * (list Q * list Q) * list (list Q * list Q)) :=
+  match ps with
+  | [mkspath nx ny [SWay [w0]; SSwitch On (SList lx) (SList ly); SWay (w0' :: ws); SSwitch Off (SList lx') (SList ly'); SWay [wn]]] =>
+      if zlist_eqb lx lx' && zlist_eqb ly ly' && wp_eqb w0 w0' && wp_eqb wn (last (w0 :: ws) w0)
+      then Some (nx, ny, lx, ly, w0, ws) else None
+  | _ => None
+  end.
+Definition transport_sel_ok (T : list pos) (O : list (pos * nat)) (ps : list spath) : bool :=
+  match recognise_transport_sel ps with
+  | Some (nx, ny, lx, ly, w0, ws) =>
+      let wn := last (w0 :: ws) w0 in
+      let ix := map Z.to_nat lx in let iy := map Z.to_nat ly in
+      in_range nx lx && in_range ny ly && nodup_nat ix && nodup_nat iy
+      && wp_sel_okb nx ny ix iy w0 && forallb (wp_sel_okb nx ny ix iy) ws
+      && forallb (fun p => existsb (pos_eqb p) T) (sel_sites ix iy w0)
+      && forallb (fun p => existsb (pos_eqb p) T) (sel_sites ix iy wn) && occ_wfb O
+      && forallb (fun p => match occ_find p O with None => true | Some _ => existsb (pos_eqb p) (sel_sites ix iy w0) end) (sel_sites ix iy wn)
+  | None => false
+  end.
+
 (* rendering *)
 Local Open Scope string_scope.
 Definition show_aerr (e : aerr) : string :=
